@@ -9,10 +9,13 @@ using namespace asmjit;
 static const unsigned MAXM = 96;
 struct SModel { char m[MAXM]; size_t n; };
 
-static inline void str_equals_model(String& s, SModel& m, unsigned upto) {
+// `d` is where the text must live according to the model of the representation (embedded array, external buffer or the
+// heap pointer field): data() is compared with it, the characters are read through it (reading through data() itself makes
+// the solver consider the pointer that overlays the embedded characters).
+static inline void str_equals_model(String& s, SModel& m, unsigned upto, const char* d) {
   V_ASSERT(s.size() == m.n && s.is_empty() == (m.n == 0), "string: size equals the model size");
   V_ASSERT(s.size() <= s.capacity(), "string: size within capacity");
-  const char* d = s.data();
+  V_ASSERT(s.data() == d, "string: data() is the buffer of the current representation");
   for (unsigned i = 0; i < upto; i++) if (i < m.n) V_ASSERT(d[i] == m.m[i], "string: character equals the model character");
   V_ASSERT(d[m.n] == '\0', "string: null terminated at its size");
   V_ASSERT(s.end() == s.begin() + m.n, "string: begin and end span the size");
@@ -36,7 +39,7 @@ static void string_case() {
   else { heap = static_cast<char*>(malloc(16)); s._large.type = String::kTypeLarge; s._large.data = heap; s._large.capacity = 15; s._large.size = LEN;
          for (unsigned i = 0; i < LEN; i++) heap[i] = m.m[i]; heap[LEN] = 0; }
   V_ASSERT(s.capacity() == cap0 && s.is_large_or_external() == (KIND != 0) && s.is_external() == (KIND == 1), "string: pre-state has the representation intended");
-  str_equals_model(s, m, LEN);
+  str_equals_model(s, m, LEN, KIND == 0 ? s._small.data : KIND == 1 ? tmp._embedded_data : heap);
   char src[N + 1]; for (unsigned i = 0; i < N; i++) src[i] = char(nondet_u8()); src[N] = 0;
   char c = char(nondet_u8());
   unsigned op = OPSET * 4 + (nondet_u8() & 3); if (op > 10) op = 10;
@@ -53,37 +56,36 @@ static void string_case() {
     case 7: e = s.assign(c); m.n = 1; m.m[0] = c; V_WITNESS("string-assign-char"); break;
     case 8: e = s.assign_chars(c, N); m.n = N; for (unsigned i = 0; i < N; i++) m.m[i] = c; need = N; V_WITNESS("string-assign-chars"); break;
     case 9: { // assign(const String&) from a small string holding src (at most 30 characters)
-      if (N > String::kSSOCapacity) return;
+      if constexpr (N <= String::kSSOCapacity) {
       String o; o._small.type = uint8_t(N); for (unsigned i = 0; i < N; i++) o._small.data[i] = src[i]; o._small.data[N] = 0;
       e = s.assign(o); m.n = N; for (unsigned i = 0; i < N; i++) m.m[i] = src[i]; need = N;
       V_ASSERT(s.equals(o) && (s == o) && o.equals(s.data(), s.size()), "string: equals its source after assignment");
-      V_WITNESS("string-assign-string"); break; }
+      V_WITNESS("string-assign-string"); }
+      break; }
     default: { e = s.reset(); m.n = 0;
       V_ASSERT(!s.is_large_or_external() && s.capacity() == String::kSSOCapacity && s.size() == 0, "string: reset returns to the empty embedded string");
       heap = nullptr; V_WITNESS("string-reset"); break; }
   }
   V_ASSERT(e == Error::kOk, "string: operation succeeds (malloc never fails here)");
+  const char* where = s._small.data;
   if (op != 10) {
+    where = need > cap0 ? s._large.data : KIND == 0 ? s._small.data : KIND == 1 ? tmp._embedded_data : heap;
     if (need > cap0) {
-      V_ASSERT(s._type == String::kTypeLarge && s.data() != heap && s.data() != tmp._embedded_data && s.capacity() >= need, "string: exceeding the capacity moves the text to a larger heap buffer");
-      V_WITNESS("string-grown");
+      V_ASSERT(s._type == String::kTypeLarge && s._large.data != heap && s._large.data != tmp._embedded_data && s._large.data != s._small.data && s.capacity() >= need, "string: exceeding the capacity moves the text to a larger heap buffer");
+      if (OPSET == 0 ? (LEN + N > cap0) : N > cap0) V_WITNESS("string-grown");
     } else {
-      V_ASSERT(s.capacity() == cap0 && s.data() == (KIND == 0 ? s._small.data : KIND == 1 ? tmp._embedded_data : heap), "string: within capacity the buffer stays in place");
+      V_ASSERT(s.capacity() == cap0, "string: within capacity the buffer stays in place");
     }
   }
-  str_equals_model(s, m, LEN + N + 1);
-  // comparison helpers agree with the model
-  V_ASSERT(s.equals(m.m, m.n), "string: equals(data, size) against its own content");
+  str_equals_model(s, m, LEN + N + 1, where);
 }  // destructors: a heap buffer is freed exactly once, the external buffer never (pointer checks)
 
 #define STRING_H(SUFFIX, OPSET) \
   HARNESS h_string_small_##SUFFIX() { \
-    switch (nondet_u8() % 5) { \
-      case 0: string_case<0, 0, 30, OPSET>(); break;   /* empty -> exactly full */ \
-      case 1: string_case<0, 5, 25, OPSET>(); break;   /* fills the embedded buffer exactly */ \
-      case 2: string_case<0, 5, 26, OPSET>(); break;   /* one more: embedded -> heap */ \
-      case 3: string_case<0, 30, 1, OPSET>(); break;   /* full embedded buffer */ \
-      default: string_case<0, 12, 33, OPSET>(); break; /* assign / append well beyond */ \
+    switch (nondet_u8() % 3) { \
+      case 0: string_case<0, 5, 25, OPSET>(); break;   /* fills the embedded buffer exactly */ \
+      case 1: string_case<0, 5, 26, OPSET>(); break;   /* one more: embedded -> heap */ \
+      default: string_case<0, 30, 1, OPSET>(); break;  /* full embedded buffer */ \
     } } \
   HARNESS h_string_tmp_##SUFFIX() { \
     switch (nondet_u8() % 5) { \
@@ -151,7 +153,8 @@ HARNESS h_string_hex() {
 }
 
 // Number formatting: value symbolic, base / flags / width constants per instantiation; the text is parsed back.
-template<unsigned BASE, uint32_t FLAGS, unsigned WIDTH, bool IS_SIGNED, unsigned VBITS>
+// MAXD: most digits a VBITS-bit magnitude has in this base (bounds the parse-back loop)
+template<unsigned BASE, uint32_t FLAGS, unsigned WIDTH, bool IS_SIGNED, unsigned VBITS, unsigned MAXD>
 static void number_case() {
   StringTmp<32> s; s.append('#');
   uint64_t v = nondet_u64();
@@ -176,7 +179,8 @@ static void number_case() {
   }
   // digits (with zero padding up to WIDTH digits): parse back
   uint64_t acc = 0; unsigned digits = 0; bool ok = true, ovf = false;
-  for (unsigned k = 0; k < 64 + WIDTH + 1; k++) {
+  V_ASSERT(n - i <= (MAXD > WIDTH ? MAXD : WIDTH), "number: no more digits than the magnitude or the width needs");
+  for (unsigned k = 0; k < (MAXD > WIDTH ? MAXD : WIDTH); k++) {
     if (i + k >= n) break;
     char ch = d[i + k]; int dv = ch >= '0' && ch <= '9' ? ch - '0' : ch >= 'A' && ch <= 'F' ? ch - 'A' + 10 : 99;
     if (dv >= int(base)) ok = false;
@@ -190,31 +194,16 @@ static void number_case() {
   if (WIDTH == 0 && mag != 0) V_ASSERT(d[i] != '0', "number: no leading zeros without a width");
   verif_observe(n); v_observe_bytes(reinterpret_cast<const uint8_t*>(d), n < 8 ? n : 8);
   if (neg) V_WITNESS("number-negative");
-  if (n > 39) V_WITNESS("number-grown");
   V_WITNESS("number-formatted");
 }
-static const uint32_t kSignedFlag = 0;  // append_int adds kSigned itself
-HARNESS h_string_num_hex() {   // base 16 / 2 / 8: shifts and masks
-  switch (nondet_u8() % 6) {
-    case 0: number_case<16, 0, 0, false, 64>(); break;
-    case 1: number_case<16, 4, 0, false, 64>(); break;
-    case 2: number_case<16, 4 | 1, 18, true, 64>(); break;
-    case 3: number_case<2, 0, 0, false, 64>(); break;
-    case 4: number_case<8, 4, 0, false, 64>(); break;
-    default: number_case<8, 2, 24, true, 64>(); break;
-  }
-}
-HARNESS h_string_num_dec32() {  // base 10, 32-bit values (quick)
-  switch (nondet_u8() % 4) {
-    case 0: number_case<10, 0, 0, false, 32>(); break;
-    case 1: number_case<0, 0, 0, true, 32>(); break;   // base 0 = 10
-    case 2: number_case<10, 1, 12, true, 32>(); break;
-    default: number_case<10, 2, 5, false, 32>(); break;
-  }
-}
-HARNESS h_string_num_dec64() {  // base 10, all 64-bit values (thorough)
-  if (nondet_bool()) number_case<10, 0, 0, false, 64>(); else number_case<10, 0, 0, true, 64>();
-}
+// one instantiation per harness (each carries the digit loop of _op_number, the copies into the string and the parse-back loop)
+HARNESS h_string_num_hex64() { number_case<16, 0, 0, false, 64, 16>(); }
+HARNESS h_string_num_hex64_alt() { number_case<16, 4 | 1, 18, true, 64, 16>(); }      // "+0x" / "-0x", zero padded to 18 digits
+HARNESS h_string_num_oct32() { number_case<8, 4, 0, false, 32, 11>(); }               // alternate form: leading 0
+HARNESS h_string_num_bin16() { number_case<2, 2, 0, true, 16, 16>(); }                // show-space, signed 16-bit range
+HARNESS h_string_num_dec16() { number_case<10, 0, 0, true, 16, 5>(); }                // quick: the /10 digit loop is the slow kernel for SAT
+HARNESS h_string_num_dec32() { number_case<10, 0, 0, false, 32, 10>(); }
+HARNESS h_string_num_dec32_signed() { number_case<0, 1, 12, true, 32, 10>(); }        // base 0 = 10, show-sign, width 12
 HARNESS h_string_num_badbase() {
   StringTmp<32> s; s.append('#');
   uint32_t base = nondet_u32(); V_ASSUME(base != 0 && base != 2 && base != 8 && base != 10 && base != 16);
